@@ -1137,6 +1137,68 @@ def halfclose_unread_session(live, rng, lossy=False):
     return S
 
 
+def c09_noack_close_session(live, rng):
+    """sockets without FIN-ACK support: the writer queues far more than the reader's window admits and closes gracefully
+    (close(FALSE)) at once; the reader stalls for a while, then reads.  Everything accepted by send() must become readable
+    (or an error be reported): a graceful close may not drop buffered data.  Result in S.c09 (stall_only semantics)."""
+    S = Sess(live, rng)
+    rb = rng.choice([1024, 2048, 4096, 8192])
+    if not start_pair(S, rng, None, dict(finack_l=0, finack_r=rng.choice([0, 0, 1]), rcvbuf_r=rb, rcvbuf_l=4096,
+                                         sndbuf_l=1 << 20)):
+        return S
+    if not establish(S, rng):
+        return S
+    want = {"l": rb * rng.choice([3, 5, 10]), "r": 0}
+    todo = dict(want)
+    while todo["l"] > 0 and S.alive():
+        d = S.send("l", min(todo["l"], 5000), rng.randrange(256))
+        if not d or d["ret"] <= 0:
+            break
+        todo["l"] -= d["ret"]
+    S.close("l", 0)
+    stall_ms = rng.choice([1000, 3000, 6000, 10000])
+    t0 = S.now
+    for phase in ("stall", "read"):
+        for _ in range(3000):
+            if not S.alive():
+                break
+            if S.net["l"] or S.net["r"]:
+                net_step(S, rng, lossy=False)
+                continue
+            if phase == "read":
+                d = S.recv("r", 70000)
+                if d and d["ret"] > 0:
+                    continue
+            dl = {}
+            for x in ("l", "r"):
+                d = S.next(x)
+                if d and d["ret"] == 1:       # the owner stops servicing a socket whose get_next_clock returns FALSE
+                    dl[x] = (int(d["x"]) - S.now) % M32
+            if phase == "stall" and (S.now - t0) % M32 >= stall_ms:
+                break
+            if not dl:
+                if phase == "stall":
+                    S.t(t0 + stall_ms)
+                break
+            x = min(dl, key=dl.get)
+            step = dl[x] if 0 < dl[x] <= 70000 else 1
+            if phase == "stall" and step > stall_ms - (S.now - t0) % M32:
+                S.t(t0 + stall_ms)
+                break
+            S.t(S.now + step)
+            S.clock(x)
+            if phase == "read" and (S.now - t0) % M32 > stall_ms + 120000:
+                break
+    ql, qr = S.q("l"), S.q("r")
+    S.c09 = {"healed": True, "heal_at": 0, "t_heal": t0, "elapsed": (S.now - t0) % M32, "steps": 0, "end": "done",
+             "want": want, "todo": todo, "random_close": False,
+             "closed": {s: bool(q and q["q"]["closed"]) for s, q in (("l", ql), ("r", qr))},
+             "errcb": {s: [e for _, e in S.errcb[s]] for s in ("l", "r")},
+             "read": {s: len(S.read[s]) for s in ("l", "r")}, "sent": {s: len(S.sent[s]) for s in ("l", "r")},
+             "mss_min": S.mss_min, "stall_only": stall_ms, "noack_close": True}
+    return S
+
+
 def c09_stall_session(live, rng, stall_ms, params=None, origin=None):
     """the network never loses anything; the only adversity is a reader (r) that does not read for `stall_ms` while the
     writer has far more data than r's receive buffer, so the receive window closes "for a while"; then the loss-free
@@ -1318,6 +1380,9 @@ def oracle_c09(S):
         return (f"{tag}error closure {c['errcb']} cut the transfer short on a network that never lost a segment: the reader only stalled for "
                 f"{c['stall_only']} ms (receive window closed for a while) and then kept reading (read={c['read']}, "
                 f"sent={c['sent']}, never accepted={c['todo']})")
+    if c.get("noack_close") and not any(c["errcb"].values()) and c["read"]["r"] != c["sent"]["l"]:
+        return (f"graceful close without FIN-ACK dropped data: the writer's send() accepted {c['sent']['l']} bytes, closed gracefully, "
+                f"no error was reported, yet only {c['read']['r']} bytes ever became readable (reader stalled {c['stall_only']} ms)")
     if c["end"] in ("op-cap", "step-cap"):
         # the driver's own operation budget ran out before the (virtual-time) bound of the property: inconclusive, not a
         # violation — e.g. two sockets that both miss data exchange duplicate ACKs for as long as the zero-latency network
